@@ -45,6 +45,10 @@ def gen_box(rng, d: int, cls: str | None = None) -> dict:
             return [-1e6, 1e6]
         if c == "offset":
             return [1e6, 1e6 + 1.0]
+        if c == "nano":
+            # narrower than the step of a numerical derivative (1.5e-8), next to zero: a probe "x + h" clipped to the box by h = upper - x
+            # is only inside if that subtraction and addition round the right way
+            return list(rng.choice([(-1e-9, 3e-9), (0.0, 2e-9), (-3e-9, 1e-9), (1e-10, 7e-9)]))
         if c == "overshoot":
             # decimal bounds on which alpha * v + (1 - alpha) * v rounds to a value beyond v for a few per cent of the alphas
             return list(rng.choice([(-5.12, 5.12), (0.3, 0.9), (-5.2, 5.2), (-1.28, 1.28), (-10.24, 10.24)]))
@@ -60,7 +64,7 @@ def gen_box(rng, d: int, cls: str | None = None) -> dict:
         bounds = [one(rng.choice(pool)) for _ in range(d)]
     else:
         b = one(cls)
-        same = rng.random() < 0.7 or cls in ("large", "offset", "tiny", "overshoot")
+        same = rng.random() < 0.7 or cls in ("large", "offset", "tiny", "overshoot", "nano")
         bounds = [list(b) if same else one(cls) for _ in range(d)]
     return {"cls": cls, "bounds": bounds}
 
